@@ -43,17 +43,27 @@ func New(p *load.Program) *Checker {
 	return c
 }
 
+// NewBits creates the engine in bit-tracking mode: branches are never merged (a merged value is not an affine
+// function of the input bits), every value carries its exact bits, fetches and emissions are recorded.
+func NewBits(p *load.Program) *Checker {
+	c := New(p)
+	c.IP.MergeIfs = false
+	c.IP.TrackBits = true
+	return c
+}
+
 // --- hooks (only emissions matter here)
 
-func (c *Checker) IterCall(*pathint.State, ssa.CallInstruction, string, *pathint.Obj, lin.Form, *pathint.Val) {}
-func (c *Checker) Index(*pathint.State, ssa.Instruction, lin.Form, lin.Form, bool)                          {}
-func (c *Checker) Slice(*pathint.State, *ssa.Slice, lin.Form, lin.Form, lin.Form)                            {}
-func (c *Checker) MakeSlice(*pathint.State, *ssa.MakeSlice, lin.Form)                                        {}
-func (c *Checker) BackEdge(*pathint.State, *ssa.BasicBlock, *ssa.BasicBlock)                                 {}
-func (c *Checker) Call(*pathint.State, ssa.CallInstruction, string, []pathint.Val)                           {}
-func (c *Checker) Return(*pathint.State, *ssa.Return, []pathint.Val)                                         {}
-func (c *Checker) Deref(*pathint.State, ssa.Instruction, pathint.Val)                                        {}
-func (c *Checker) Publish(*pathint.State, *ssa.Store, *pathint.Obj, string, *pathint.Obj)                    {}
+func (c *Checker) IterCall(*pathint.State, ssa.CallInstruction, string, *pathint.Obj, lin.Form, *pathint.Val) {
+}
+func (c *Checker) Index(*pathint.State, ssa.Instruction, lin.Form, lin.Form, bool)        {}
+func (c *Checker) Slice(*pathint.State, *ssa.Slice, lin.Form, lin.Form, lin.Form)         {}
+func (c *Checker) MakeSlice(*pathint.State, *ssa.MakeSlice, lin.Form)                     {}
+func (c *Checker) BackEdge(*pathint.State, *ssa.BasicBlock, *ssa.BasicBlock)              {}
+func (c *Checker) Call(*pathint.State, ssa.CallInstruction, string, []pathint.Val)        {}
+func (c *Checker) Return(*pathint.State, *ssa.Return, []pathint.Val)                      {}
+func (c *Checker) Deref(*pathint.State, ssa.Instruction, pathint.Val)                     {}
+func (c *Checker) Publish(*pathint.State, *ssa.Store, *pathint.Obj, string, *pathint.Obj) {}
 
 func (c *Checker) keyOf(in ssa.Instruction) string {
 	if k, ok := c.ord[in]; ok {
